@@ -73,10 +73,11 @@ def _child(argv: T.List[str], cwd: Path, env: T.Dict[str, str], outf: Path) -> N
         try:
             rc = mesonmain.run(argv, str(common.REPO / 'meson.py'))
         except SystemExit as e:          # argparse errors
-            rc = e.code if isinstance(e.code, int) else 1
+            rc = e.code if isinstance(e.code, int) else 0 if e.code is None else 1
         sys.stdout.flush()
         sys.stderr.flush()
-        os._exit(rc if isinstance(rc, int) and 0 <= rc < 256 else 255)
+        # what `sys.exit(rc)` of meson.py makes of it: an int is truncated to a byte by the system, None is 0, else 1
+        os._exit(rc & 0xFF if isinstance(rc, int) else 0 if rc is None else 1)
     except BaseException:
         import traceback
         try:
@@ -186,7 +187,7 @@ def _control(world: World, ctl: Path, cmd: T.Dict[str, T.Any], proc: Proc, relea
     policy = cmd.get('policy', 'fifo')
     hint_total = cmd.get('hint_total', 99)
     hint_par = cmd.get('hint_par', 99)
-    quiet = 0.35
+    quiet = float(cmd.get('quiet', 2.0))
     outf = ctl / 'stdout.txt'
     started: T.List[str] = []
     last_change = time.time()
@@ -203,9 +204,15 @@ def _control(world: World, ctl: Path, cmd: T.Dict[str, T.Any], proc: Proc, relea
             time.sleep(0.003)
             continue
         expected_running = min(hint_par, hint_total - len(releases))
-        if len(waiting) < expected_running and time.time() - last_change < quiet:
-            time.sleep(0.003)
-            continue
+        if len(waiting) < expected_running:
+            if time.time() - last_change < quiet:
+                time.sleep(0.003)
+                continue
+            # a slow machine: a task the command has taken up (its progress line says so) whose script has not reported
+            # yet is waited for a good while longer; this only ever delays a release, it decides nothing
+            if time.time() - last_change < 45.0 and _taken_up_not_started(world, outf, started):
+                time.sleep(0.01)
+                continue
         n = waiting[0] if policy == 'fifo' else waiting[-1]
         (ctl / ('go.' + n)).write_text('')
         releases.append(n)
@@ -216,6 +223,23 @@ def _control(world: World, ctl: Path, cmd: T.Dict[str, T.Any], proc: Proc, relea
                 raise common.MachineryError('gated foreach run timed out waiting for a block')
             time.sleep(0.003)
         last_change = time.time()
+
+
+def _taken_up_not_started(world: World, outf: Path, started: T.List[str]) -> bool:
+    try:
+        text = outf.read_text(errors='replace')
+    except OSError:
+        return False
+    m = None
+    for m in re.finditer(r'Progress: \d+ / \d+ \(([^)\r\n]*)\)', text):
+        pass
+    if m is None:
+        return False
+    for name in [x.strip() for x in m.group(1).split(',') if x.strip()]:
+        w = world.state.get(name)
+        if w is not None and w['dir'] == 'present' and dirname_of(w) not in started:
+            return True
+    return False
 
 
 def pattern_of(sel: T.Dict[str, T.Any]) -> T.List[str]:
@@ -240,7 +264,8 @@ def render(world: World, ctl: Path, cmd: T.Dict[str, T.Any]) -> T.Tuple[T.List[s
     else:
         common_opts += ['--sourcedir', str(world.src)]
     if cmd.get('types'):
-        common_opts += ['--types', cmd['types']]
+        # the model has a set of type names; `types_text` (when given) is the spelling chosen for the command line
+        common_opts += ['--types', cmd.get('types_text') or ','.join(cmd['types'])]
     if cmd.get('j', 0):
         common_opts += (['-j', str(cmd['j'])] if cmd.get('shortj', True) else ['--num-processes', str(cmd['j'])])
     pats = pattern_of(cmd.get('sel', {'k': 'all'}))
@@ -248,7 +273,7 @@ def render(world: World, ctl: Path, cmd: T.Dict[str, T.Any]) -> T.Tuple[T.List[s
     if c == 'download':
         argv += common_opts + pats
     elif c == 'update':
-        argv += (['--reset'] if cmd.get('reset') else []) + common_opts + pats
+        argv += (['--reset'] if cmd.get('reset') else []) + (['--rebase'] if cmd.get('rebase') else []) + common_opts + pats
     elif c == 'checkout':
         argv += (['-b'] if cmd.get('b') else []) + common_opts
         # the branch name is the first positional; names of subprojects follow it
@@ -260,7 +285,7 @@ def render(world: World, ctl: Path, cmd: T.Dict[str, T.Any]) -> T.Tuple[T.List[s
         argv += (['--confirm'] if cmd.get('confirm') else []) + (['--include-cache'] if cmd.get('cache') else [])
         argv += common_opts + pats
     elif c == 'packagefiles':
-        argv += ['--apply'] + common_opts + pats
+        argv += ['--save' if cmd.get('save') else '--apply'] + common_opts + pats
     elif c == 'foreach':
         gate = ctl / 'gate.sh'
         if not gate.exists():
@@ -319,3 +344,52 @@ def tokens(world: World, cmd: T.Dict[str, T.Any], text: str) -> T.List[T.List[st
         else:
             toks.append(['', 'other'])
     return toks
+
+
+def failed_names(text: str) -> T.List[str]:
+    """The subprojects the closing warning names as failed (the per-subproject verdicts of the command)."""
+    out: T.List[str] = []
+    for ln in clean_lines(text):
+        m = re.search(r'command failed in some subprojects.*?: (.*)$', ln)
+        if m:
+            out += [x.strip() for x in m.group(1).split(',') if x.strip()]
+    return out
+
+
+def crashed(text: str, rc: T.Optional[int]) -> bool:
+    """The command died of an exception nobody handled (as opposed to reporting failures)."""
+    return 'Traceback (most recent call last)' in text or 'Unhandled python' in text or (rc is not None and rc < 0)
+
+
+def schedule(world: World, events: T.List[T.List[str]]) -> T.List[T.Dict[str, T.Any]]:
+    """start / end events of the gate script -> [{kind, name (of the wrap), cwd (ran in that wrap's directory)}]."""
+    by_dir = {dirname_of(w): n for n, w in world.state.items()}
+    out = []
+    for e in events:
+        kind, dn = e[0], e[1]
+        name = by_dir.get(dn, '?' + dn)
+        cwd = True
+        if kind == 'start':
+            try:
+                cwd = len(e) > 2 and name in world.state and \
+                    os.path.samefile(e[2], world.dirpath(world.state[name])) and \
+                    Path(e[2]) == world.dirpath(world.state[name]).resolve()
+            except OSError:
+                cwd = False
+        out.append({'kind': kind, 'name': name, 'cwd': bool(cwd)})
+    return out
+
+
+def crash_site(text: str) -> str:
+    """Where an unhandled exception came from, normalised: '<ExceptionType>@<module>.<function>' of the innermost frame
+    inside mesonbuild (used to make the signature of a crash specific; never used for a verdict)."""
+    frames = re.findall(r'File "[^"]*?mesonbuild/([^"]+?)\.py", line \d+, in (\S+)', text)
+    exc = ''
+    for ln in text.splitlines():
+        m = re.match(r'^([A-Za-z_][\w.]*(?:Error|Exception|Exit|Interrupt))\b', ln.strip())
+        if m:
+            exc = m.group(1)
+    if not frames and not exc:
+        return ''
+    mod, fn = frames[-1] if frames else ('?', '?')
+    return f'{exc or "?"}@{mod.replace("/", ".")}.{fn}'
